@@ -42,9 +42,21 @@ def rand_options(rng, geom, force_method=None, allow_expert=True, want_skip=Fals
                     mins = [min(c[k] for c in comps) for k in range(a.ncomp)]
                     maxs = [max(c[k] for c in comps) for k in range(a.ncomp)]
                     org = [G.f32(m - rng.choice([0.0, 0.5, 1.0]) * (1.0 + abs(m)) * 0.01) for m in mins]
+                    # the API accepts fewer origin dimensions than the attribute has components: the missing ones
+                    # are 0 (only generated when the values of those components are inside [0, range])
+                    if a.ncomp > 1 and rng.random() < 0.3:
+                        nd = rng.randint(1, a.ncomp - 1)
+                        if all(mins[k] >= 0.0 for k in range(nd, a.ncomp)):
+                            org = org[:nd] + [0.0] * (a.ncomp - nd)
+                            short_dims = nd
+                        else:
+                            short_dims = None
+                    else:
+                        short_dims = None
                     rngv = max([mx - o for mx, o in zip(maxs, org)] + [1e-3]) * rng.choice([1.0, 1.5, 2.0])
                     rngv = G.f32(rngv if rng.random() < 0.7 else float(int(rngv) + 1))
-                    toks.append(f"x{i}={bits},{G.f32_bits(rngv)}," + ",".join(str(G.f32_bits(o)) for o in org))
+                    shown = org if short_dims is None else org[:short_dims]
+                    toks.append(f"x{i}={bits},{G.f32_bits(rngv)}," + ",".join(str(G.f32_bits(o)) for o in shown))
                     info.setdefault("explicit", {})[a.uid] = (bits, G.f32_bits(rngv), [G.f32_bits(o) for o in org])
                 else:
                     toks.append(f"q{i}={bits}")
